@@ -235,6 +235,28 @@ theorem run_bufSize (cd : Codec α) (cfg : EncCfg) (k : Nat) (n : Nat) : ∀ (b 
     obtain ⟨b', evs', o⟩ := r
     simp only [ih]
 
+theorem trace_run (cd : Codec α) (cfg : EncCfg) (n : Nat) : ∀ (b : BodySt) (evs : List (SrcEv α)),
+    (Enc.trace cd cfg n b evs).1.map (·.2) = Enc.run cd cfg n b evs := by
+  induction n with
+  | zero => intros; rfl
+  | succ n ih =>
+    intro b evs
+    simp only [Enc.trace, Enc.run]
+    generalize Enc.pollFrame cd cfg b evs = r
+    obtain ⟨b', evs', o⟩ := r
+    simp [ih]
+
+theorem trace_flags (cd : Codec α) (cfg : EncCfg) (n : Nat) : ∀ (b : BodySt) (evs : List (SrcEv α)),
+    (Enc.trace cd cfg n b evs).1.map (·.1) ++ [(Enc.trace cd cfg n b evs).2] = Enc.endFlags cd cfg n b evs := by
+  induction n with
+  | zero => intros; rfl
+  | succ n ih =>
+    intro b evs
+    simp only [Enc.trace, Enc.endFlags]
+    generalize Enc.pollFrame cd cfg b evs = r
+    obtain ⟨b', evs', o⟩ := r
+    simp [ih]
+
 /-- the data a frame output carries -/
 def FrameOut.bytes : FrameOut → Bytes
   | .data b => b
